@@ -8,6 +8,7 @@ variable {F : Type} [Scalar F]
 
 theorem reset_eq (s : RelativeStrengthIndex F) (h : WF s) : s.reset = some (fresh s.period) := by
   unfold reset
+  try simp only [gen_helper]
   simp [ExponentialMovingAverage.reset_eq _ h.up, ExponentialMovingAverage.reset_eq _ h.down, fresh,
     h.up_period, h.down_period]
 
